@@ -38,6 +38,7 @@ from supvisors.plugin import make_supvisors_rpcinterface  # noqa: E402,F401
 from supvisors.ttypes import SupvisorsInstanceStates, SupvisorsStates  # noqa: E402
 
 BASE_TIME = 1_700_000_000.0
+MIN_LIFETIME = 0.2
 LEVELS = {'BLAT': 3, 'TRAC': 5, 'DEBG': 10, 'INFO': 20, 'WARN': 30, 'ERRO': 40, 'CRIT': 50}
 
 _WORLD = None
@@ -388,7 +389,8 @@ class SimInstance:
         w.emit('spawn', inst=self.nick, inc=self.inc, namespec=namespec, pid=pid)
         exit_after = life.get('exit_after')
         if exit_after is not None:
-            self._schedule_death(pid, w.now + exit_after, (life.get('exit_code', 0) & 0xff) << 8)
+            # a real process lives at least the time of fork + exec + exit (also bounds crash loops in virtual time)
+            self._schedule_death(pid, w.now + max(exit_after, MIN_LIFETIME), (life.get('exit_code', 0) & 0xff) << 8)
         return pid
 
     def _schedule_death(self, pid, when, sts):
@@ -965,7 +967,8 @@ class World:
             cbs = world.hook_cbs
 
             def wrapper(*args, **kw):
-                world.emit('hook', name=name, inst=inst.nick, inc=inst.inc, args=args)
+                world.emit('hook', name=name, inst=inst.nick, inc=inst.inc,
+                           args=args if name.startswith('send_') else None)
                 for cb in cbs.get(name, ()):
                     cb(inst, *args, **kw)
                 return orig(*args, **kw)
@@ -975,6 +978,11 @@ class World:
                      'send_restart_all', 'send_shutdown_all', 'send_check_instance', 'send_state_event'):
             wrap(rpc_handler, attr, attr)
         wrap(sv.state_modes, 'update_instance_state', 'instance_state')
+        wrap(sv.listener, 'force_process_state', 'force_process_state')
+        for attr in ('start_applications', 'start_application', 'start_process'):
+            wrap(sv.starter, attr, 'starter_' + attr)
+        for attr in ('stop_applications', 'stop_application', 'stop_process'):
+            wrap(sv.stopper, attr, 'stopper_' + attr)
 
     # -- helpers -------------------------------------------------------------------------------------
     def quiescent(self):
